@@ -509,7 +509,7 @@ fn gen_word(rng: &mut Rng, tier: &str, n: usize, v: &mut Vec<Req>) {
 
 /// All requests of the modelled scanners. `n` is the size of the random part of the run.
 pub fn gen(rng: &mut Rng, n: usize, tier: &str, v: &mut Vec<Req>) {
-    let m = (n / 8).max(200);
+    let m = (n / 8).clamp(200, 50_000);
     gen_mp(rng, tier, m, v);
     gen_strs(rng, tier, m, v);
     gen_word(rng, tier, m, v);
